@@ -20,8 +20,14 @@ class RemovableDisposable(abc.DisposableBase):
 
     def dispose(self) -> None:
         self.observer.dispose()
-        if not self.subject.is_disposed and self.observer in self.subject.observers:
-            self.subject.observers.remove(self.observer)
+        if not self.subject.is_disposed:
+            # The subject may clear its observer list concurrently (it
+            # terminates on another thread): tolerate the observer being
+            # gone already instead of testing membership first.
+            try:
+                self.subject.observers.remove(self.observer)
+            except ValueError:
+                pass
 
 
 class QueueItem(NamedTuple):
